@@ -34,7 +34,8 @@ def formats(draw, order, sparse_bias=0.5):
 
 
 @st.composite
-def expr_trees(draw, max_leaves=5, orders=None, literal_rate=15, big_literals=False, ops="+-**"):
+def expr_trees(draw, max_leaves=5, orders=None, literal_rate=15, big_literals=False, ops="+-**",
+               order_choices=(0, 1, 1, 2, 2, 2, 3)):
     """Random binary tree over tensor/literal leaves.  ``orders`` (dict) is filled with tensor orders."""
     n = draw(st.integers(1, max_leaves))
     leaves = []
@@ -50,7 +51,7 @@ def expr_trees(draw, max_leaves=5, orders=None, literal_rate=15, big_literals=Fa
         else:
             name = draw(st.sampled_from(NAMES[:4]))
             if name not in orders:
-                orders[name] = draw(st.sampled_from([0, 1, 1, 2, 2, 2, 3]))
+                orders[name] = draw(st.sampled_from(list(order_choices)))
             k = orders[name]
             idxs = list(draw(st.permutations(IDX)))[:k]
             leaves.append(["t", name, idxs])
@@ -133,6 +134,8 @@ def stored_tensor(draw, dims, fmt, value_class="exact", density=None):
                     mask = draw(st.integers(0, 2**d - 1))
                     if dens == 1:
                         mask &= draw(st.integers(0, 2**d - 1))
+                    elif dens == 3:
+                        mask |= draw(st.integers(0, 2**d - 1))
                     sub = [x for x in range(d) if mask >> x & 1]
                 crd.extend(sub)
                 pos.append(len(crd))
@@ -152,6 +155,24 @@ def stored_tensor(draw, dims, fmt, value_class="exact", density=None):
 
 
 @st.composite
+def format_for(draw, idxs, rank, p_sparse10=5, consistent10=6, force_sparse=False):
+    """Format for a tensor accessed with index list ``idxs``.  With probability consistent10/10 the level
+    order follows the global index rank (which makes a kernel likely to exist and still yields non-identity
+    orderings because index lists are random); otherwise any permutation."""
+    order = len(idxs)
+    modes = ["s" if draw(st.integers(0, 9)) < p_sparse10 else "d" for _ in range(order)]
+    if force_sparse and order and "s" not in modes:
+        modes[draw(st.integers(0, order - 1))] = "s"
+    if order <= 1:
+        ordering = tuple(range(order))
+    elif draw(st.integers(0, 9)) < consistent10:
+        ordering = tuple(sorted(range(order), key=lambda d: rank[idxs[d]]))
+    else:
+        ordering = draw(st.sampled_from(ALL_PERMS[order]))
+    return C.fmt_text(tuple(modes), ordering)
+
+
+@st.composite
 def kernel_cases(
     draw,
     max_leaves=5,
@@ -160,40 +181,43 @@ def kernel_cases(
     sparse_output_bias=False,
     literal_rate=15,
     max_target=3,
+    min_target=0,
     ops="+-**",
     density=None,
+    p_sparse_in=5,
+    min_dim=0,
+    order_choices=(0, 1, 1, 2, 2, 2, 3),
+    density_choices=None,
 ):
     orders = {}
     tree = draw(expr_trees(max_leaves=max_leaves, orders=orders, big_literals=big_literals,
-                           literal_rate=literal_rate, ops=ops))
+                           literal_rate=literal_rate, ops=ops, order_choices=order_choices))
     used = X.indexes_of(tree)
-    k = draw(st.integers(0, min(len(used), max_target)))
+    lo = min(min_target, len(used), max_target)
+    k = draw(st.integers(lo, min(len(used), max_target)))
     tgt = list(draw(st.permutations(used)))[:k] if used else []
     target = ["o", tgt]
-    fm = {"o": draw(formats(len(tgt), 0.7 if sparse_output_bias else 0.5))}
-    if sparse_output_bias and tgt and "s" not in fm["o"]:
-        modes, ordering = C.fmt_parts(fm["o"])
-        j = draw(st.integers(0, len(modes) - 1))
-        modes = tuple("s" if q == j else m for q, m in enumerate(modes))
-        fm["o"] = C.fmt_text(modes, ordering)
+    rank = {i: r for r, i in enumerate(draw(st.permutations(IDX)))}
+    fm = {"o": draw(format_for(tgt, rank, 7 if sparse_output_bias else 5, 7, force_sparse=sparse_output_bias))}
     seen = []
+    first = {}
     for t in X.tensors(tree):
         if t[1] not in seen:
             seen.append(t[1])
-            fm[t[1]] = draw(formats(len(t[2])))
+            first[t[1]] = t
+            fm[t[1]] = draw(format_for(t[2], rank, p_sparse_in, 6))
     sizes = {}
+    choices = [d for d in DIM_CHOICES if d >= min_dim]
     for cls in alias_classes(tree, tgt):
-        s = draw(st.sampled_from(DIM_CHOICES))
+        s = draw(st.sampled_from(choices))
         for i in cls:
             sizes[i] = s
     vc = value_class or draw(st.sampled_from(["exact", "exact", "exact", "general"]))
     inputs = {}
-    first = {}
-    for t in X.tensors(tree):
-        first.setdefault(t[1], t)
     for name in seen:
         dims = tuple(sizes[i] for i in first[name][2])
-        inputs[name] = draw(stored_tensor(dims, fm[name], vc, density))
+        dens = density if density_choices is None else draw(st.sampled_from(list(density_choices)))
+        inputs[name] = draw(stored_tensor(dims, fm[name], vc, dens))
     return {
         "target": target,
         "expr": tree,
